@@ -233,22 +233,26 @@ class SourceScope(Scope):
         """Absolute names of the modules this source may refer to through its imports"""
         result = set()
         project = getattr(self, '_project', None)
+        imported = [[m] for m in getattr(self, '_star_modules', [])]  # may have contributed no names (yet)
         for _flow, name in self.all_names:
             if isinstance(name, ImportedName):
                 candidates = [name.module]
                 if name.mname:
                     candidates.append(name.module + name.mname if not name.module.strip('.')
                                       else name.module + '.' + name.mname)
-                for module in candidates:
-                    if module.startswith('.'):
-                        if not project:
-                            continue
-                        try:
-                            module = project.norm_package(module, self.filename)
-                        except ImportError:
-                            continue
-                    if module:
-                        result.add(module)
+                imported.append(candidates)
+
+        for candidates in imported:
+            for module in candidates:
+                if module.startswith('.'):
+                    if not project:
+                        continue
+                    try:
+                        module = project.norm_package(module, self.filename)
+                    except ImportError:
+                        continue
+                if module:
+                    result.add(module)
 
         for mname in self._imports:
             parts = mname.split('.')
@@ -322,6 +326,7 @@ class SourceScope(Scope):
     def resolve_star_imports(self, project):
         # type: (Project) -> None
         self._project = project
+        self._star_modules = [r[2] for r in self._star_imports]
         for loc, declared_at, mname, flow in self._star_imports:
             try:
                 module = project.get_nmodule(mname, self.filename)
